@@ -64,6 +64,8 @@ void usim_mark_nontrivial(void);
 
 /* The calling thread is a harness (script) thread: used by deadlock reports */
 void usim_thread_name(const char *fmt, ...) __attribute__((format(printf, 1, 2)));
+/* label of the operation the calling thread is executing (reports, traces) */
+void usim_set_op(const char *fmt, ...) __attribute__((format(printf, 1, 2)));
 int usim_tid(void);
 int usim_nthreads(void);
 
@@ -98,6 +100,8 @@ void usim_solo_begin(void);
 void usim_solo_end(void);
 /* Freeze / thaw one thread (by sim tid). */
 void usim_freeze(int tid, int on);
+/* pthread_create() by the calling thread may fail with EAGAIN (fault kind pthread_create_eagain) */
+void usim_allow_create_fail(int on);
 /* Plain yield point callable from harness code */
 void usim_yield(void);
 /* A yield point at which other threads are strongly preferred. */
